@@ -39,6 +39,10 @@ func (g *Gen) Rand() *rand.Rand {
 // Run executes an input segment on the real code and records it. gen names the generator (for the evidence).
 func (g *Gen) Run(gen string, seg []Ev) {
 	out := g.p.Exec(seg)
+	if len(out) == 0 {
+		g.w.extra["not_executed_after_hangs"] = toInt(orZero(g.w.extra["not_executed_after_hangs"])) + 1
+		return
+	}
 	g.w.gens[gen]++
 	g.w.Put(out)
 }
@@ -287,4 +291,11 @@ func allStrings(alphabet []rune, maxLen int, f func([]rune)) {
 		}
 	}
 	rec(nil)
+}
+
+func orZero(v any) any {
+	if v == nil {
+		return 0
+	}
+	return v
 }
